@@ -847,8 +847,12 @@ def _save_to_empty(save: Callable[[Any, str], None], k) -> bytes:
         if os.path.lexists(q):
             os.unlink(q)
     if data is None:
-        raise RuntimeError("the reference save into an empty location wrote nothing")
+        raise ReferenceSaveFailed("a completed save (no fault injected) left nothing at the destination it was asked to write")
     return data
+
+
+class ReferenceSaveFailed(Exception):
+    """an observation about the implementation, not a harness error: reported as a violation by run_item / replay"""
 
 
 def session_texts(e: Env, save: Callable[[Any, str], None], hist: List[Dict[str, str]], load: bool) -> List[bytes]:
@@ -1088,7 +1092,10 @@ def run_item(item) -> common.Result:
         part_h(e, item, r)
         r.sample = {"part": "H", "rename_files": item["renames"], "configuration": item["cfg"], "PYTHONHASHSEED_of_successive_processes": item["seeds"], "in_place": bool(item.get("inplace"))}
     else:
-        part_b(e, item, r)
+        try:
+            part_b(e, item, r)
+        except ReferenceSaveFailed as x:
+            r.violation({"kind": "completed_save_left_no_destination", "gen": item.get("gen", "write_config")}, f"[{item.get('gen', 'write_config')}] {x}", dict(item, files=e.files, reference_save_failed=True))
         tg, order = b_targets(item)
         r.sample = {"part": "B", "dest": item["kind"], "older_old_present": item["older"] is not None, "destinations": [{"name": t["name"], "history": t["hist"]} for t in tg], "order_of_saves": order,
                     "save_function": item.get("gen", "write_config"), "instance_loaded_dest": bool(item.get("load")), "write_deprecated": item["write_deprecated"], "tree": TREE}
@@ -1103,5 +1110,8 @@ def replay(case) -> List[dict]:
     elif case["part"] == "H":
         part_h(e, case, r)
     else:
-        part_b(e, case, r, only=case.get("crash"))
+        try:
+            part_b(e, case, r, only=case.get("crash"))
+        except ReferenceSaveFailed as x:
+            r.violation({"kind": "completed_save_left_no_destination", "gen": case.get("gen", "write_config")}, f"[{case.get('gen', 'write_config')}] {x}", case)
     return r.viols
